@@ -154,7 +154,8 @@ class DictWriter:
                     # nasty python code annotations when writing to yaml.
                     if isinstance(tag, tuple):
                         prop_dict[attr] = list(tag)
-                    elif (tag == []) or tag:  # Even if 'values' is empty, allow '[]'
+                    # Even if 'values' is empty, allow '[]'; an uncertainty of 0 is a value as well.
+                    elif (tag == []) or tag or (tag == 0 and tag is not False):
                         # Custom odML tuples require special handling.
                         if attr == "values" and prop.dtype and \
                                 prop.dtype.endswith("-tuple") and prop.values:
